@@ -337,6 +337,10 @@ fn c04(s: &str) -> Option<String> {
     eqck!("UsernameCasePreserved.prepare", own(p.prepare(s)), ref_user_prepare(s));
     eqck!("UsernameCaseMapped.enforce", own(m.enforce(s)), ref_user_enforce(s, true));
     eqck!("UsernameCasePreserved.enforce", own(p.enforce(s)), ref_user_enforce(s, false));
+    eqck!("UsernameCaseMapped::prepare (static)", own(<UsernameCaseMapped as PrecisFastInvocation>::prepare(s)), ref_user_prepare(s));
+    eqck!("UsernameCaseMapped::enforce (static)", own(<UsernameCaseMapped as PrecisFastInvocation>::enforce(s)), ref_user_enforce(s, true));
+    eqck!("UsernameCasePreserved::prepare (static)", own(<UsernameCasePreserved as PrecisFastInvocation>::prepare(s)), ref_user_prepare(s));
+    eqck!("UsernameCasePreserved::enforce (static)", own(<UsernameCasePreserved as PrecisFastInvocation>::enforce(s)), ref_user_enforce(s, false));
     None
 }
 fn c05(s: &str) -> Option<String> {
@@ -345,6 +349,8 @@ fn c05(s: &str) -> Option<String> {
     eqck!("OpaqueString.additional_mapping_rule", own(o.additional_mapping_rule(s)), Ok(ref_map_sp(s)));
     eqck!("OpaqueString.normalization_rule", own(o.normalization_rule(s)), Ok(ref_nfc(s)));
     eqck!("OpaqueString.enforce", own(o.enforce(s)), ref_opaque_enforce(s));
+    eqck!("OpaqueString::prepare (static)", own(<OpaqueString as PrecisFastInvocation>::prepare(s)), ref_freeform_prepare(s));
+    eqck!("OpaqueString::enforce (static)", own(<OpaqueString as PrecisFastInvocation>::enforce(s)), ref_opaque_enforce(s));
     None
 }
 fn c06(s: &str) -> Option<String> {
@@ -354,6 +360,8 @@ fn c06(s: &str) -> Option<String> {
     let got = match guard("Nickname.enforce", || own(n.enforce(s))) { Ok(g) => g, Err(e) => return Some(e) };
     eqck!("Nickname.enforce", got, ref_stab(&ref_nick_step, s));
     if let Ok(e) = &got { eqck!("Nickname.enforce result is a fixed point", ref_nick_step(e), Ok(e.clone())); }
+    eqck!("Nickname::prepare (static)", own(<Nickname as PrecisFastInvocation>::prepare(s)), ref_freeform_prepare(s));
+    eqck!("Nickname::enforce (static)", own(<Nickname as PrecisFastInvocation>::enforce(s)), ref_stab(&ref_nick_step, s));
     None
 }
 // C07 speaks about compare relative to the profile's OWN comparison form: for usernames and OpaqueString that is the
@@ -372,6 +380,10 @@ fn c07_pair(a: &str, b_: &str) -> Option<String> {
     eqck!("UsernameCasePreserved.compare vs enforce(a) == enforce(b)", got.1, ref_cmp(own(p.enforce(a)), own(p.enforce(b_))));
     eqck!("OpaqueString.compare vs enforce(a) == enforce(b)", got.2, ref_cmp(own(o.enforce(a)), own(o.enforce(b_))));
     eqck!("Nickname.compare vs its comparison rules iterated to stability", got.3, ref_cmp(lib_nick_canon(&n, a), lib_nick_canon(&n, b_)));
+    eqck!("UsernameCaseMapped::compare (static) vs instance", <UsernameCaseMapped as PrecisFastInvocation>::compare(a, b_), got.0);
+    eqck!("UsernameCasePreserved::compare (static) vs instance", <UsernameCasePreserved as PrecisFastInvocation>::compare(a, b_), got.1);
+    eqck!("OpaqueString::compare (static) vs instance", <OpaqueString as PrecisFastInvocation>::compare(a, b_), got.2);
+    eqck!("Nickname::compare (static) vs instance", <Nickname as PrecisFastInvocation>::compare(a, b_), got.3);
     None
 }
 fn c08(s: &str) -> Option<String> {
